@@ -31,6 +31,7 @@ import (
 	"github.com/bokysan/socketace/v2/internal/util/addr"
 	"github.com/bokysan/socketace/v2/internal/util/cert"
 	"github.com/gorilla/websocket"
+	mdns "github.com/miekg/dns"
 	"github.com/xtaci/kcp-go/v5"
 )
 
@@ -75,6 +76,14 @@ func Progress() int64 { return atomic.LoadInt64(&progress) }
 // move for `window` AND nothing moved anywhere in the process for the stall window W; Inconclusive when
 // the process was busy meanwhile.
 func C16WaitLocal(done <-chan struct{}, local func() int64, window time.Duration) Outcome {
+	return C16WaitLocalBusy(done, local, window, nil)
+}
+
+// C16WaitLocalBusy is C16WaitLocal with a witness for the busy case: when the windows have run out while the
+// process burns CPU, sutSpins (if given) is asked whether there is positive evidence that it is the system under
+// test going round in circles (e.g. a scripted endpoint that has been contacted thousands of times over by the
+// one attempt that is still running). Only then the answer is Stalled instead of Inconclusive.
+func C16WaitLocalBusy(done <-chan struct{}, local func() int64, window time.Duration, sutSpins func() bool) Outcome {
 	w := StallWindow()
 	if window < w {
 		window = w
@@ -100,7 +109,7 @@ func C16WaitLocal(done <-chan struct{}, local func() int64, window time.Duration
 		if now.Sub(lastLT) > window && now.Sub(lastGT) > w {
 			el := now.Sub(lastLT).Seconds()
 			used := float64(cpuTicks()-ticks) / 100.0
-			if used > el*0.5 {
+			if used > el*0.5 && (sutSpins == nil || !sutSpins()) {
 				return Inconclusive
 			}
 			return Stalled
@@ -235,6 +244,9 @@ func (e *C16Endpoint) StartServer() error {
 	e.mu.Lock()
 	e.Server = cmd
 	e.mu.Unlock()
+	if e.Relay != nil {
+		e.Relay.SetDown(false)
+	}
 	return nil
 }
 
@@ -253,6 +265,9 @@ func (e *C16Endpoint) RestartServer() error {
 // StopServer shuts the server command down (listener gone). The sessions it had are ended by the
 // caller through the relay (CutAll), as the operating system does when a server process exits.
 func (e *C16Endpoint) StopServer() {
+	if e.Relay != nil {
+		e.Relay.SetDown(true)
+	}
 	e.mu.Lock()
 	s := e.Server
 	e.Server = nil
@@ -381,6 +396,121 @@ type C16Scripted struct {
 	peers        map[string]bool
 	srv          *http.Server
 	closed       int32
+	// kind "dns": a DNS-tunnel upstream none of whose resolver candidates lets the tunnel through
+	Resolvers []string // the resolver candidates (host:port on loopback), in the order they are written into the URL
+	DNSList   string   // how the URL writes them: "" = ?dns=a,b | "repeat" = ?dns=a&dns=b | "udp" = ?dns=udp://a,udp://b (no TCP candidates)
+	Domain    string
+	resPeers  []map[string]bool // per resolver: the client sockets that have contacted it
+	pcs       []net.PacketConn
+}
+
+// c16ResolverProgress: that many contacts of one dead resolver count as progress of a fail-over (the reference model
+// dials every candidate once per attempt); a client that comes back to it again and again is not getting anywhere.
+const c16ResolverProgress = 4
+
+// ResolverContacts is, per resolver candidate of a "dns" endpoint, the number of distinct client sockets that
+// have sent it a query (closed ports see nothing: 0). Counting stops at 100000.
+func (s *C16Scripted) ResolverContacts() []int {
+	s.mu.Lock()
+	defer s.mu.Unlock()
+	out := make([]int, len(s.resPeers))
+	for i, m := range s.resPeers {
+		out[i] = len(m)
+	}
+	return out
+}
+
+var c16DeadDNSSeq int64
+
+// NewC16ScriptedDNS is a dns:// upstream with n resolver candidates, all of them dead in the same manner:
+//
+//	refused     closed UDP (and TCP) ports
+//	hs-400      a resolver that answers every query with rcode REFUSED ("the server responds but does not allow our queries")
+//	hs-garbage  answers bytes that are no DNS message
+//	silent      takes every query and never answers
+//
+// No DNS server is involved (nothing is registered in miekg's handler table): the resolvers are bare UDP sockets.
+func NewC16ScriptedDNS(manner string, n int) (*C16Scripted, error) {
+	if n < 1 {
+		n = 1
+	}
+	s := &C16Scripted{Kind: "dns", Manner: manner, fd: -1, peers: map[string]bool{}}
+	s.Domain = fmt.Sprintf("dead%d.c16.example.org", atomic.AddInt64(&c16DeadDNSSeq, 1))
+	for i := 0; i < n; i++ {
+		s.resPeers = append(s.resPeers, map[string]bool{})
+		if manner == "refused" {
+			a, err := c16ClosedUDPPort()
+			if err != nil {
+				s.Close()
+				return nil, err
+			}
+			s.Resolvers = append(s.Resolvers, a)
+			continue
+		}
+		pc, err := net.ListenPacket("udp", "127.0.0.1:0")
+		if err != nil {
+			s.Close()
+			return nil, err
+		}
+		s.pcs = append(s.pcs, pc)
+		s.Resolvers = append(s.Resolvers, pc.LocalAddr().String())
+		go s.serveResolver(i, pc)
+	}
+	s.Addr = s.Resolvers[0]
+	switch manner {
+	case "refused", "hs-400", "hs-garbage", "silent":
+		return s, nil
+	}
+	s.Close()
+	return nil, fmt.Errorf("c16: no scripted manner %q for dns", manner)
+}
+
+func (s *C16Scripted) serveResolver(i int, pc net.PacketConn) {
+	buf := make([]byte, 65536)
+	for {
+		n, from, err := pc.ReadFrom(buf)
+		if err != nil {
+			return
+		}
+		s.mu.Lock()
+		if k := from.String(); !s.resPeers[i][k] && len(s.resPeers[i]) < 100000 {
+			s.resPeers[i][k] = true
+			if len(s.resPeers[i]) <= c16ResolverProgress {
+				atomic.AddInt64(&s.accepts, 1)
+				Bump(1)
+			}
+		}
+		s.mu.Unlock()
+		switch s.Manner {
+		case "hs-400":
+			q := new(mdns.Msg)
+			if q.Unpack(buf[:n]) != nil {
+				continue
+			}
+			r := new(mdns.Msg)
+			r.SetRcode(q, mdns.RcodeRefused)
+			if b, err := r.Pack(); err == nil {
+				pc.WriteTo(b, from)
+			}
+		case "hs-garbage":
+			pc.WriteTo([]byte(c16Garbage), from)
+		}
+	}
+}
+
+func c16ClosedUDPPort() (string, error) {
+	// a closed UDP port: nothing is bound to it. It is taken from below the ephemeral range, so that no
+	// other socket of this machine is given the port later while a client still sends to it.
+	for i := 0; i < 200; i++ {
+		port := 20000 + int((int64(os.Getpid())*131+atomic.AddInt64(&c16ClosedPortSeq, 1)*7919)%9000)
+		pc, err := net.ListenPacket("udp", fmt.Sprintf("127.0.0.1:%d", port))
+		if err != nil {
+			continue
+		}
+		pc.Close()
+		return fmt.Sprintf("127.0.0.1:%d", port), nil
+	}
+	return "", fmt.Errorf("c16: no closed udp port found")
 }
 
 // Accepts is the number of physical connections (udp: distinct peers) this endpoint has seen.
@@ -388,6 +518,20 @@ func (s *C16Scripted) Accepts() int64 { return atomic.LoadInt64(&s.accepts) }
 
 func (s *C16Scripted) URL() string {
 	switch s.Kind {
+	case "dns":
+		var l []string
+		for _, r := range s.Resolvers {
+			r = C16SpellHost(r, s.Host)
+			if s.DNSList == "udp" {
+				r = "udp://" + r
+			}
+			l = append(l, r)
+		}
+		sep := ","
+		if s.DNSList == "repeat" {
+			sep = "&dns="
+		}
+		return "dns://" + s.Domain + "?direct=false&dns=" + strings.Join(l, sep)
 	case "ws", "wss":
 		return c16Scheme(s.Kind, s.Scheme) + "://" + C16SpellHost(s.Addr, s.Host) + "/ws/all"
 	case "udp":
@@ -669,6 +813,9 @@ func (s *C16Scripted) Close() {
 	}
 	if s.pc != nil {
 		s.pc.Close()
+	}
+	for _, pc := range s.pcs {
+		pc.Close()
 	}
 	if s.fd >= 0 {
 		syscall.Close(s.fd)
